@@ -84,6 +84,7 @@ void execute(const Scenario& sc, std::vector<std::vector<std::pair<V, uint64_t>>
   for (int i = 0; i < sc.nslots; ++i) sk.push_back(make<SK>(sc.fam, sc.ks[i], desc));
   for (const auto& st : sc.steps) {
     if (st.kind == 0) { for (V v : st.items) sk[st.a].update(enc(v)); continue; }
+    if (st.kind == 5) { if (st.a != st.b) sk[st.a] = sk[st.b]; continue; }   // copy assignment over an existing (possibly queried) sketch: slot a becomes a copy of slot b
     if (st.kind == 4) {  // const queries may reorganise the sketch internally (sorting, cached view); they use no coins and change no answer
       const SK& q = sk[st.a];
       if (q.is_empty()) continue;
@@ -177,6 +178,7 @@ void run_family(const Scenario& sc0, const Case& cs) {
   for (const auto& st : sc.steps) {
     if (st.kind == 0) truth[st.a].insert(truth[st.a].end(), st.items.begin(), st.items.end());
     else if (st.kind == 3 || st.kind == 4) continue;
+    else if (st.kind == 5) { if (st.a != st.b) truth[st.a] = truth[st.b]; }
     else { std::vector<V> add = truth[st.b]; truth[st.a].insert(truth[st.a].end(), add.begin(), add.end()); }
   }
   V qlo = 0, qhi = 0; bool have = false;
@@ -277,6 +279,7 @@ void run_family(const Scenario& sc0, const Case& cs) {
   for (auto& st : sc.steps) { merged |= st.kind == 1 || st.kind == 2; rt |= st.kind == 3; if (st.kind == 4) qseen = true; else if ((st.kind == 1 || st.kind == 2) && qseen) qbm = true; }
   if (rt) vf::label("round-trip-in-mid-history");
   if (qbm) vf::label("query-before-merge");
+  { bool asg = false; for (auto& st : sc.steps) asg |= st.kind == 5; if (asg) vf::label("copy-assignment-in-mid-history"); }
   vf::label(sc.desc ? "comparator:descending-instance" : "comparator:ascending-instance");
   vf::label(std::string("family:") + fam_name(sc.fam));
   if (merged) vf::label("merge");
@@ -318,6 +321,11 @@ void prop(const Case& cs) {
     } else if (op.name == "rt") {
       if (!sc.nslots) continue;
       sc.steps.push_back(Scenario::Step{3, static_cast<int>(op.uarg(0) % sc.nslots), static_cast<int>(op.uarg(1) & 1), {}});
+    } else if (op.name == "asg") {
+      if (sc.nslots < 2) continue;
+      int a = static_cast<int>(op.uarg(0) % sc.nslots), b = static_cast<int>(op.uarg(1) % sc.nslots);
+      if (a == b || sc.ks[a] != sc.ks[b]) continue;   // the flip budget is planned per slot k: assign between slots of the same k only
+      sc.steps.push_back(Scenario::Step{5, a, b, {}});
     } else if (op.name == "q") {
       if (!sc.nslots) continue;
       sc.steps.push_back(Scenario::Step{4, static_cast<int>(op.uarg(0) % sc.nslots), static_cast<int>(op.uarg(1) % 3), {}});
@@ -334,7 +342,7 @@ void prop(const Case& cs) {
 rc::Gen<Case> gen() {
   using namespace vf;
   auto leaf = op4("leaf", range(0, 9), rc::gen::weightedOneOf<int64_t>({{1, range(0, 3)}, {3, range(4, 40)}, {3, range(40, 119)}}), range(0, 4), range(0, 1 << 20));
-  auto hist = choose({{4, op3("merge", range(0, 3), range(0, 3), range(0, 1))}, {3, op4("upd", range(0, 3), range(1, 59), range(0, 4), range(0, 1 << 20))}, {2, op2("rt", range(0, 3), range(0, 1))}, {3, op2("q", range(0, 3), range(0, 2))}});
+  auto hist = choose({{4, op3("merge", range(0, 3), range(0, 3), range(0, 1))}, {3, op4("upd", range(0, 3), range(1, 59), range(0, 4), range(0, 1 << 20))}, {2, op2("rt", range(0, 3), range(0, 1))}, {3, op2("q", range(0, 3), range(0, 2))}, {2, op2("asg", range(0, 3), range(0, 3))}});
   auto ops = rc::gen::map(rc::gen::tuple(rc::gen::mapcat(rc::gen::weightedOneOf<int64_t>({{1, range(1, 1)}, {5, range(2, 4)}}), [leaf](int64_t n) { return rc::gen::container<std::vector<Op>>(static_cast<size_t>(n), leaf); }), oplist(hist, 2, 0.07)),
                           [](std::tuple<std::vector<Op>, std::vector<Op>> t) { auto v = std::get<0>(t); auto& h = std::get<1>(t); v.insert(v.end(), h.begin(), h.end()); return v; });
   return make_case({{"fam", range(0, NFAM - 1)}, {"desc", range(0, 1)}}, ops);
